@@ -131,7 +131,7 @@ def _manager_tier(case: dict[str, Any], rec: Any) -> None:
 
         rec.bucket("manager-level:api-faults")
         if rnd.get("result") is not None:
-            c15._judge(dict(case, kind="battery"), case["mgr_outcomes"], rnd, rec, first=False)  # noqa: SLF001
+            c15._judge(dict(case, kind="battery", adjust=case.get("mgr_adjust", True)), case["mgr_outcomes"], rnd, rec, first=False)  # noqa: SLF001
             rec.count("manager_results_checked")
         return
     p = case["power"]
@@ -141,13 +141,15 @@ def _manager_tier(case: dict[str, Any], rec: Any) -> None:
     w = {"power": p, "calls": [{k: c[k] for k in ("id", "watts", "outcome")} for c in calls], "result": repr(res)[:500]}
     if isinstance(res, OutOfBounds):
         b = res.bounds
-        for edge in (b.exclusion_lower, b.exclusion_upper):
-            if edge != 0 and abs(p - edge) <= 1e-9 * max(1.0, abs(edge)):
-                rec.count("request-on-exclusion-bound-in-ulp-sliver")
-                return
         if not case.get("mgr_adjust", True) and not (b.inclusion_lower - 1e-9 <= p <= b.inclusion_upper + 1e-9):
             rec.count("unadjustable-request-beyond-the-inclusion-bounds-refused")
             return
+        for edge in (b.exclusion_lower, b.exclusion_upper):
+            if edge != 0 and abs(p - edge) <= 1e-9 * max(1.0, abs(edge)):
+                # a request exactly on the advertised exclusion bound is admitted (the pool and the distributor
+                # compute that bound from the same numbers, with exactly rounded sums)
+                rec.violation("request-on-the-advertised-exclusion-bound-refused", {**w, "enforced_exclusion": [b.exclusion_lower, b.exclusion_upper]})
+                return
     if not case.get("mgr_adjust", True):
         rec.bucket("manager-level:adjust_power=False")
     if not isinstance(res, Success):
